@@ -596,4 +596,5 @@ func runConc(args []string) {
 		rr = 3
 	}
 	rearm(seed, rr, want, enc)
+	pubsubConc(seed, rounds, want, enc)
 }
